@@ -9,9 +9,20 @@ Open Scope Z_scope.
 Definition op_ok (o : op) : Prop :=
   match o with
   | Create _ _ k _ _ => 1 <= k
-  | ExtendList m | ExtendOther m => 0 <= m
+  | ExtendList m | ExtendOther m | ExtendListBad m => 0 <= m
+  | Register _ _ k rows _ => 1 <= k /\ Forall (fun r => length r = Z.to_nat k) rows
+  | CreateSized _ _ _ _ _ => False       (* a caller-chosen size: see create_sized_eq for size = len(container) *)
   | _ => True
   end.
+
+(* the elements of a numpy array of dtype t are values of that dtype: storing them again changes nothing *)
+Definition fixed (c : cell) : Prop := Forall (fun v => store (ck c) v = v) (cv c).
+
+Lemma store_idem t c : store t (store t c) = store t c.
+Proof.
+  unfold store. destruct t, c; try reflexivity. simpl. unfold trunc.
+  rewrite firstn_firstn. rewrite Nat.min_id. reflexivity.
+Qed.
 
 Definition rowlen (a : attr) (r : list comp) : Prop := length r = Z.to_nat (asz a).
 
@@ -27,13 +38,13 @@ Definition attr_ok (n : Z) (h : heap) (a : attr) : Prop :=
       NoDup (map fst m) /\
       forall k sv, lookup k m = Some sv ->
                    match sv with
-                   | SVec id => 1 < asz a /\ exists c, nth_error h id = Some c /\ rowlen a (cv c)
+                   | SVec id => 1 < asz a /\ exists c, nth_error h id = Some c /\ rowlen a (cv c) /\ ck c = aty a /\ fixed c
                    | SScal _ => asz a = 1
                    end
   end.
 
 Definition ref_ok (h : heap) (r : ref) : Prop :=
-  match r with RObj id => (id < length h)%nat | RRow _ _ k => 0 <= k end.
+  match r with RObj id => (id < length h)%nat | RRow _ _ k => 0 <= k | RArr _ _ | RNone => True end.
 
 Definition inv (s : state) : Prop :=
   0 <= sn s /\
@@ -43,41 +54,44 @@ Definition inv (s : state) : Prop :=
 (* heaps only ever grow at the end or are updated in place by a vector of the same length *)
 Definition heap_ext (h h' : heap) : Prop :=
   (length h <= length h')%nat /\
-  forall id c, nth_error h id = Some c -> exists c', nth_error h' id = Some c' /\ length (cv c') = length (cv c).
+  forall id c, nth_error h id = Some c -> exists c', nth_error h' id = Some c' /\ length (cv c') = length (cv c) /\ ck c' = ck c /\
+                                           (fixed c -> fixed c').
 
 Lemma heap_ext_refl h : heap_ext h h.
 Proof. split; [lia|]. intros id c H. exists c. auto. Qed.
 
 Lemma heap_ext_app h x : heap_ext h (h ++ [x]).
 Proof.
-  split; [rewrite app_length; simpl; lia|]. intros id c H. exists c. split; [|reflexivity].
+  split; [rewrite app_length; simpl; lia|]. intros id c H. exists c. split; [|split; [reflexivity|split; [reflexivity|auto]]].
   rewrite nth_error_app1; [exact H|]. apply nth_error_Some. congruence.
 Qed.
 
 Lemma heap_ext_upd h id c0 v :
-  nth_error h id = Some c0 -> length v = length (cv c0) -> heap_ext h (upd h id (mkcell (ck c0) v)).
+  nth_error h id = Some c0 -> length v = length (cv c0) -> (fixed c0 -> fixed (mkcell (ck c0) v)) ->
+  heap_ext h (upd h id (mkcell (ck c0) v)).
 Proof.
-  intros H L. split; [rewrite length_upd; lia|]. intros id' c H'.
+  intros H L FX. split; [rewrite length_upd; lia|]. intros id' c H'.
   destruct (Nat.eq_dec id id') as [E|N].
   - subst id'. exists (mkcell (ck c0) v). split.
     + apply nth_error_upd_same. apply nth_error_Some. congruence.
-    + simpl. congruence.
-  - exists c. split; [|reflexivity]. rewrite nth_error_upd_other; auto.
+    + simpl. assert (c = c0) by congruence. subst c. split; [congruence|]. split; [reflexivity|exact FX].
+  - exists c. split; [|split; [reflexivity|split; [reflexivity|auto]]]. rewrite nth_error_upd_other; auto.
 Qed.
 
 Lemma attr_ok_ext n h h' a : heap_ext h h' -> attr_ok n h a -> attr_ok n h' a.
 Proof.
   intros [HL HE] [H1 [H2 H3]]. split; [exact H1|]. split.
   - destruct (adef a) as [c|id]; [exact I|]. destruct H2 as [L [c [Hc Hr]]]. split; [exact L|].
-    destruct (HE _ _ Hc) as [c' [Hc' Hl]]. exists c'. split; [exact Hc'|]. unfold rowlen in *. congruence.
+    destruct (HE _ _ Hc) as [c' [Hc' [Hl _]]]. exists c'. split; [exact Hc'|]. unfold rowlen in *. congruence.
   - destruct (ast a) as [m|ne st rows]; [|exact H3]. destruct H3 as [ND H3]. split; [exact ND|].
     intros k sv Hk. specialize (H3 k sv Hk). destruct sv as [c|id]; [exact H3|].
-    destruct H3 as [L [c [Hc Hr]]]. split; [exact L|].
-    destruct (HE _ _ Hc) as [c' [Hc' Hl]]. exists c'. split; [exact Hc'|]. unfold rowlen in *. congruence.
+    destruct H3 as [L [c [Hc [Hr [Hk' Hf]]]]]. split; [exact L|].
+    destruct (HE _ _ Hc) as [c' [Hc' [Hl [Hkk Hff]]]]. exists c'. split; [exact Hc'|]. unfold rowlen in *.
+    split; [congruence|]. split; [congruence|auto].
 Qed.
 
 Lemma ref_ok_ext h h' r : heap_ext h h' -> ref_ok h r -> ref_ok h' r.
-Proof. intros [HL _]. destruct r; simpl; lia. Qed.
+Proof. intros [HL _]. destruct r; simpl; auto; lia. Qed.
 
 Lemma default_row_len n h a : attr_ok n h a -> rowlen a (default_row h a).
 Proof.
@@ -180,7 +194,9 @@ Proof.
       * simpl. destruct A3 as [ND A3]. split; [now apply NoDup_upsert|].
         intros k sv. rewrite lookup_upsert. destruct (k =? key).
         -- intros E. inversion E; subst. split; [lia|]. eexists. split; [apply nth_error_app_new|].
-           unfold rowlen. simpl. rewrite map_length. lia.
+           unfold rowlen, sparse_vec_uses_attr_dtype. simpl. rewrite map_length. split; [lia|]. split; [reflexivity|].
+           unfold fixed. simpl. apply Forall_forall. intros v0 Hv. apply in_map_iff in Hv. destruct Hv as [u [<- _]].
+           apply store_idem.
         -- intros Hk. specialize (A3 k sv Hk). destruct sv as [c|id]; [exact A3|].
            destruct A3 as [L [c [Hc Hr]]]. split; [exact L|]. exists c. split; [|exact Hr].
            rewrite nth_error_app1; [exact Hc|]. apply nth_error_Some. congruence.
@@ -227,12 +243,16 @@ Proof.
     exfalso. assert (dense_oob key ne = true) by (apply dense_bounds; lia). congruence.
 Qed.
 
+Lemma upd_out_of_range {A} (l : list A) i v : (length l <= i)%nat -> upd l i v = l.
+Proof. revert i. induction l; intros [|i] L; simpl in *; try lia; auto. f_equal. apply IHl. lia. Qed.
+
 Lemma inv_mut_ref s r c x : inv s -> inv (mut_ref s r c x).
 Proof.
-  intros Hi. pose proof Hi as [H0 [H1 H2]]. destruct r as [id|a stamp k]; simpl.
+  intros Hi. pose proof Hi as [H0 [H1 H2]]. destruct r as [id|a stamp k|a0 st0|]; simpl; [| |exact Hi|exact Hi].
   - destruct (nth_error (hp s) id) as [cl|] eqn:Hc; [|exact Hi].
-    assert (HE : heap_ext (hp s) (upd (hp s) id (mkcell (ck cl) (upd (cv cl) (Z.to_nat c) (cast (ck cl) x))))).
-    { apply heap_ext_upd; [exact Hc|]. apply length_upd. }
+    assert (HE : heap_ext (hp s) (upd (hp s) id (mkcell (ck cl) (upd (cv cl) (Z.to_nat c) (store (ck cl) x))))).
+    { apply heap_ext_upd; [exact Hc|apply length_upd|]. unfold fixed. simpl. intros FX.
+      apply Forall_upd; [exact FX|apply store_idem]. }
     split; [exact H0|]. split.
     + intros b bt Hb. simpl in *. eapply attr_ok_ext; [exact HE|]. eapply H1; eassumption.
     + simpl. eapply Forall_impl; [|exact H2]. intros r. now apply ref_ok_ext.
@@ -245,10 +265,7 @@ Proof.
     destruct (Nat.lt_ge_cases (Z.to_nat k) (length rows)) as [L|L].
     + apply Forall_upd; [exact B3|]. unfold rowlen. rewrite length_upd. unfold znth_row.
       rewrite Forall_forall in B3. apply B3. now apply nth_In.
-    + assert (E : upd rows (Z.to_nat k) (upd (znth_row rows k) (Z.to_nat c) (cast (aty at_) x)) = rows).
-      { clear -L. revert L. generalize (Z.to_nat k) as i. generalize (upd (znth_row rows k) (Z.to_nat c) (cast (aty at_) x)) as v.
-        induction rows; intros v [|i] L; simpl in *; try lia; auto. f_equal. apply IHrows. lia. }
-      rewrite E. exact B3.
+    + rewrite upd_out_of_range by exact L. exact B3.
 Qed.
 
 Lemma inv_grow s added amount :
@@ -279,6 +296,50 @@ Proof.
     apply Forall_repeat. change (rowlen at_ (default_row (hp s) at_)). eapply default_row_len; exact Hok.
 Qed.
 
+Lemma inv_push_ref s r : inv s -> ref_ok (hp s) r -> inv (with_refs s (refs s ++ [r])).
+Proof.
+  intros [H0 [H1 H2]] Hr. split; [exact H0|]. split; [exact H1|]. simpl. apply Forall_app. split; [exact H2|].
+  constructor; [exact Hr|constructor].
+Qed.
+
+Lemma inv_as_array s a : inv s -> inv (fst (do_as_array s a)).
+Proof.
+  intros Hi. unfold do_as_array. destruct (lookup a (attrs s)) as [at_|]; [|exact Hi].
+  destruct (ast at_); [destruct (fill_rows _ _ _ _ _); [|exact Hi]|]; simpl; apply inv_push_ref; simpl; auto.
+Qed.
+
+Lemma inv_update s a key c x : inv s -> inv (fst (do_update s a key c x)).
+Proof.
+  intros Hi. unfold do_update. pose proof (inv_get s a key Hi) as Hg.
+  destruct (do_get s a key) as [s1 w]. simpl in Hg. destruct w; try exact Hg. destruct isvec; [|exact Hg].
+  destruct ((c <? 0) || (c >=? Z.of_nat (length row))); [exact Hg|].
+  destruct (nth_error (refs s1) (length (refs s))) as [rf|]; [|exact Hg]. apply (inv_mut_ref s1 rf c x Hg).
+Qed.
+
+Lemma inv_mut_arr s r row c x : inv s -> inv (fst (do_mut_arr s r row c x)).
+Proof.
+  intros Hi. unfold do_mut_arr. destruct (nth_error (refs s) r) as [[id|a st k|a st|]|]; try exact Hi.
+  destruct (row <? 0); [exact Hi|]. apply (inv_mut_ref s (RRow a st row) c x Hi).
+Qed.
+
+Lemma inv_register s a t k rows d :
+  inv s -> 1 <= k -> Forall (fun r => length r = Z.to_nat k) rows -> inv (fst (do_register s a t k rows d)).
+Proof.
+  intros Hi Hk Hr. unfold do_register.
+  destruct (match lookup a (attrs s) with Some _ => register_keeps_existing | None => false end); [exact Hi|].
+  destruct (negb (Z.of_nat (length rows) =? sn s)) eqn:Sh; [exact Hi|]. destruct (sn s =? 0); [exact Hi|].
+  assert (Ln : Z.of_nat (length rows) = sn s) by lia.
+  unfold mk_default. destruct d as [c|].
+  - destruct (kind_of c) as [td|]; [|exact Hi]. destruct (default_type_bad td t); [exact Hi|]. simpl.
+    apply inv_with_heap_attr; [exact Hi|apply heap_ext_refl|].
+    split; [exact Hk|]. split; [exact I|]. simpl. auto.
+  - destruct (k =? 1) eqn:K1; simpl.
+    + apply inv_with_heap_attr; [exact Hi|apply heap_ext_refl|]. split; [exact Hk|]. split; [exact I|]. simpl. auto.
+    + apply inv_with_heap_attr; [exact Hi|apply heap_ext_app|].
+      split; [exact Hk|]. split; [|simpl; auto].
+      simpl. split; [lia|]. eexists. split; [apply nth_error_app_new|]. unfold rowlen. simpl. apply repeat_length.
+Qed.
+
 Lemma inv_step s o : inv s -> op_ok o -> inv (fst (step s o)).
 Proof.
   intros Hi Ho. apply inv_tick in Hi. unfold step. set (t := tick s) in *. clearbody t.
@@ -287,17 +348,25 @@ Proof.
   - now apply inv_delete.
   - now apply inv_set.
   - now apply inv_get.
-  - unfold do_mut. destruct (nth_error (refs t) r); [|exact Hi]. simpl. now apply inv_mut_ref.
+  - unfold do_mut. destruct (nth_error (refs t) r) as [[id|a st k|a st|]|]; try exact Hi; first [apply (inv_mut_ref t (RObj id) c x Hi)|apply (inv_mut_ref t (RRow a st k) c x Hi)].
   - apply inv_grow; [exact Hi|lia|]. unfold append_amount. destruct (corner t); reflexivity.
   - apply inv_grow; [exact Hi|lia|]. unfold iadd_list_amount. destruct (corner t); reflexivity.
   - apply inv_grow; [exact Hi|lia|]. unfold iadd_cont_amount. destruct (corner t); reflexivity.
   - apply inv_grow; [exact Hi|destruct Hi; lia|]. unfold iadd_cont_amount. destruct (corner t); reflexivity.
   - now apply inv_clear_attr.
-  - unfold do_as_array. destruct (lookup a (attrs t)) as [at_|]; [|exact Hi].
-    destruct (ast at_); [|exact Hi]. destruct (fill_rows _ _ _ _ _); exact Hi.
+  - now apply inv_as_array.
   - destruct (lookup a (attrs t)); exact Hi.
   - destruct (lookup a (attrs t)) as [at_|]; [|exact Hi]. destruct (ast at_); exact Hi.
   - destruct Hi as [H0 [H1 H2]]. split; [simpl; lia|]. split; [intros ? ? ?; discriminate|exact H2].
+  - now apply inv_update.
+  - now apply inv_mut_arr.
+  - unfold do_contains. destruct (lookup a (attrs t)) as [at_|]; [|exact Hi]. destruct (ast at_) as [m|ne st rows]; [exact Hi|].
+    destruct rows; [exact Hi|]. destruct (asz at_ =? 1); exact Hi.
+  - destruct (corner t) eqn:Cn.
+    + exact Hi.
+    + apply inv_grow; [exact Hi|lia|]. unfold iadd_list_amount. rewrite Cn. reflexivity.
+  - contradiction.
+  - destruct Ho. now apply inv_register.
 Qed.
 
 Lemma inv_init c : inv (init c).
@@ -336,9 +405,10 @@ Proof.
   pose proof (inv_step _ _ Hi Ho) as Hi'. rewrite E in Hi'. simpl in Hi'. split.
   - unfold step in E. destruct o; simpl in E;
       try (unfold grow in E; inversion E; reflexivity);
-      unfold do_create, do_set, do_get, do_mut, do_clear_attr, do_as_array in E;
+      unfold do_create, do_set, do_get, do_mut, do_clear_attr, do_as_array, do_update, do_mut_arr, do_contains,
+        do_create_sized, do_register, do_get in E;
       repeat (match type of E with context [match ?x with _ => _ end] => destruct x; try discriminate E end);
-      try discriminate E.
+      try discriminate E; try (unfold grow in E; inversion E; reflexivity).
   - destruct Hi' as [_ [H _]]. intros a at_ La. specialize (H _ _ La). destruct H as [_ [_ H]].
     unfold len_attr. destruct (ast at_); [exact I|]. destruct H as [B1 [B2 _]]. unfold dense_len. auto.
 Qed.
